@@ -40,7 +40,28 @@ CHECKS['C17'] = dict(engine='mirsym', category='model_checking', design='DESIGN.
    text="Symbolic execution of the MIR of every builder method (TypeBuilder, Fields/FieldsBuilder, FieldBuilder incl. ty/compact, Variants, VariantBuilder, TypeDefTuple::new, MetaType::new/is_phantom) along seeded typestate-valid call skeletons (setter order, optional and repeated setters, closures whose bodies are driver-chosen setter sequences). Arguments are symbolic: strings opaque, index u8 and discriminant u64 bit-vectors, every field's TypeId a free 128-bit variable so the solver decides whether a member is the PhantomData identity. Oracle: the built Type holds exactly what was supplied, in order, minus PhantomData members; docs(..) kept iff the MIR was dumped with the docs feature, docs_always(..) always. Run on MIR dumped with docs off and on.",
    note="The skeleton dimension is seeded (30 quick / 120 thorough per shape and feature set), not exhaustive; portable builders (field_portable, docs_portable) are covered only by the native battery. Counterexamples are confirmed by a native builder battery built with and without the docs feature.",
    technique=TECH)
+CODEC_NOTE = "Codec primitives (u8, u32, Compact<u32>, Option tag, Vec/String length+elements, UTF-8 validity, error behaviour) are modelled in mirsym/codec_models.py; the derived impls are executed from MIR. The models are validated every run against the real crate on concrete registries / byte strings, and the scalar ones are proved equal to the real codec for all inputs by Kani harnesses (kani/src/leaves.rs)."
+CHECKS['C06'] = dict(engine='kani+mirsym', category='model_checking', design='DESIGN.md §6 C06',
+   text="Engine K: Kani/CBMC differential harnesses on the compiled crate with the real parity-scale-codec: for every layout node the library's encode_to (into a fixed-array Output) equals a reference encoder written from the layout text, for all scalar contents (ids over the full u32 range incl. the compact class boundaries, raw LE array length, u8 index, all 15 primitive tags); string/vector nodes one harness per concrete shape. Engine M: the derived Encode MIR of whole symbolic registries (every kind, presence, lengths, ids across all compact classes, string bytes) is compared bytewise with an independent Python reference encoder and an independent reference decoder must read the value back.",
+   note=CODEC_NOTE + " Vectors of structs on the real codec are out of CBMC's reach (composite with one field > 300 s): their composition is decided in engine M only. The library decoder on reference-encoded input follows from byte equality and C07.",
+   technique='Kani/CBMC bounded model checking of the compiled crate (differential vs reference encoder) + SMT-based symbolic execution of MIR (mirsym + z3)')
+CHECKS['C07'] = dict(engine='mirsym+kani', category='model_checking', design='DESIGN.md §6 C07',
+   text="Bounded symbolic execution of the derived Encode MIR of a symbolic PortableRegistry into bytes and of the derived Decode MIR on those bytes: per path z3 refutes an Err result, any field difference between decoded and original value, and inexact consumption. Symbolic: definition kind, presence, vector lengths, ids over the full u32 range (all compact classes), array length, index, string bytes; ids need not be dense. Injectivity is a corollary of the round trip; determinism is functional purity of the interpreted encode. Scalar leaves round-trip on the real codec in the Kani harnesses run under C14/C06.",
+   note=CODEC_NOTE + " That parity-scale-codec's own Vec/String/Option implementations round-trip is modelled, not checked.", technique=TECH)
+CHECKS['C08'] = dict(engine='mirsym', category='model_checking', design='DESIGN.md §6 C08',
+   text="SHAPE ONLY: bounded symbolic execution of the MIR of the derived Serialize impls (feature serde) with a tree-building model of serde's Serializer/SerializeStruct, so keys, lower-case tags, transparency and skip_serializing_if branches are read from the derive's real output; per path the produced document is compared with the documented shape (reference built from the property text), leaves by z3. The round-trip half of C08 (Deserialize) is NOT claimed: it is only exercised natively through serde_json on a corpus as a sanity run.",
+   note="Claim is at the serde data-model level (keys, tags, presence; key order irrelevant); serde_json's text layer and arbitrary unicode are outside; strings are opaque tokens.", technique=TECH)
+CHECKS['C14'] = dict(engine='mirsym+kani', category='model_checking', design='DESIGN.md §6 C14',
+   text="PARTIAL: (1) the derived Decode MIR of PortableRegistry and of each inner node is executed on buffers whose every byte is a solver variable, for every length up to the bound: no panic edge (MIR assert, index, unwrap/expect, overflow) is feasible and every Ok path re-encodes (derived Encode MIR) to exactly the consumed prefix; (2) PortableRegistry::resolve from MIR for all u32 ids: None iff out of range, never a panic; (3) the scalar leaf decoders of the real codec on arbitrary bytes in Kani: no panic/overflow/out-of-bounds, canonical, equal to the model twins.",
+   note=CODEC_NOTE + " NOT decided: panic-freedom and allocation behaviour of parity-scale-codec's Vec/String decoders on arbitrary input, the whole JSON half of the property, inputs longer than the bound (a registry with one composite entry and one field needs 12 bytes).", technique=TECH + '; Kani/CBMC for the scalar leaves')
 NA = {
+ 'C09': "not applicable to solver-based checking: the function under test is a proc macro executed by rustc on token streams at compile time; no installed engine can make a program symbolic or execute syn's parser symbolically, and the run-time value it produces has no free variable (its run-time ingredients - segment replacement, docs gating, PhantomData erasure - are decided under C18/C17)",
+ 'C13': "not applicable: 'the derived impl compiles for every instantiation' is decided by rustc's trait solver per generated program; there is no code to execute symbolically and no SMT encoding of trait resolution available here",
+ 'C19': "not applicable: needs schemars schema generation and a JSON-Schema validator over serialiser output - string-keyed-map/format!-heavy run-time code far outside CBMC (one serde_json::to_value of a tiny type: 332 s / 11.7 GB) and not modelled in mirsym; schema validation is not a property a solver can range over with the installed tools",
+ 'C20': "not applicable: compile-time rejection is rustc's exit status on ill-formed programs; a harness cannot contain an ill-typed call, so a typestate hole is invisible to symbolic execution of well-typed code",
+ 'C03': "check not built yet in this revision (Kani two-stage harness generator planned, DESIGN.md §6 C03)",
+ 'C04': "check not built yet in this revision (Kani two-stage harness generator planned, DESIGN.md §6 C04)",
+ 'C15': "check not built yet in this revision (per-feature-set re-runs planned, DESIGN.md §6 C15)",
 }
 m = {
  "version": 1, "setup_cmd": "./setup.sh",
